@@ -83,7 +83,7 @@ def _same(a, b):
     return (a is None and b is None) or (a is not None and b is not None and a == b)
 
 
-def extend(shape: str, shared: bool = False):
+def extend(shape: str, shared: bool = False, unset: int = 0):
     from flow.record import extend_record
     from flow.record.base import merge_record_descriptors
 
@@ -98,6 +98,11 @@ def extend(shape: str, shared: bool = False):
         """
         carriers = [v0, v1, v2, v3, v4, v5, v6, v7, v8]
         vals = [_values(i, k, carriers) for k, i in enumerate(idx)]
+        # an unset (None) value of the record that wins is the value: it is not filled in from a record of lower precedence
+        if unset == 1:
+            vals[0] = [None] * len(vals[0])
+        if unset == 2:
+            vals[-1] = [None] * len(vals[-1])
         recs = [d(*v, _generated=GEN) for d, v in zip(descs, vals)]
         before = [r._pack() for r in recs]
         name = "new/name" if rename else None
@@ -111,7 +116,7 @@ def extend(shape: str, shared: bool = False):
             got = getattr(out, n)
             if not _same(got, v):
                 return False
-            if t != "record" and type(got).__name__ != t:
+            if t != "record" and got is not None and type(got).__name__ != t:
                 return False
         merged = merge_record_descriptors(tuple(descs), replace, name)
         if merged.get_field_tuples() != out._desc.get_field_tuples() or merged.name != out._desc.name:
@@ -348,6 +353,9 @@ def obligations(tier, seed):
     obs = []
     for s in shapes_extend(tier, seed):
         obs.append(ob(f"O1-extend/{s}", "xh", "extend", {"shape": s}, timeout=to, group="O1-extend", bounds="carriers all ints, replace / rename symbolic"))
+        if len(s) == 2 or tier == "thorough":
+            for unset, what in ((1, "first"), (2, "last")):
+                obs.append(ob(f"O1-extend/{s}-unset-{what}", "xh", "extend", {"shape": s, "unset": unset}, timeout=to, group="O1-extend", bounds=f"as above; every value of the {what} record is unset (None)"))
         if len(set(s)) < len(s):
             obs.append(ob(f"O1-extend/{s}-shared", "xh", "extend", {"shape": s, "shared": True}, timeout=to, group="O1-extend", bounds="as above; repeated positions use one descriptor object"))
     for s in shapes_ts(tier):
@@ -376,17 +384,21 @@ def replay(res):
         for replace in ([bool(cv["replace"])] if "replace" in cv else []) + [False, True]:
             descs = [RecordDescriptor(f"t/p{i}" if a.get("shared") else f"t/r{k}", [(TYPES.get(t, t), n) for t, n in POOL[i]]) for k, i in enumerate(idx)]
             vals = [_values(i, k, list(range(100, 109))) for k, i in enumerate(idx)]
+            if a.get("unset") == 1:
+                vals[0] = [None] * len(vals[0])
+            if a.get("unset") == 2:
+                vals[-1] = [None] * len(vals[-1])
             recs = [d(*v) for d, v in zip(descs, vals)]
             exp = ref_merge([[(TYPES.get(t, t), n) for t, n in POOL[i]] for i in idx], vals, replace)
             try:
                 out = extend_record(recs[0], recs[1:], replace=replace)
                 got = [(t, n, getattr(out, n)) for t, n in out._desc.get_field_tuples()]
-                bad = got != exp or any(type(getattr(out, n)).__name__ != t for t, n, _ in exp)
+                bad = got != exp or any(getattr(out, n) is not None and type(getattr(out, n)).__name__ != t for t, n, _ in exp)
                 detail = f"got {got}, expected {exp}"
             except Exception as e:  # noqa: BLE001
                 bad, detail = True, f"raised {type(e).__name__}: {e}; expected {exp}"
             if bad:
-                return {"reproduced": True, "key": f"C15/extend/{a['shape']}{'s' if a.get('shared') else ''}/{replace}", "what": f"extend_record over descriptors {[POOL[i] for i in idx]} replace={replace}: {detail}"[:600], "input": {"shape": a["shape"], "replace": replace}}
+                return {"reproduced": True, "key": f"C15/extend/{a['shape']}{'s' if a.get('shared') else ''}{'/unset' + str(a['unset']) if a.get('unset') else ''}/{replace}", "what": f"extend_record over descriptors {[POOL[i] for i in idx]} replace={replace}: {detail}"[:600], "input": {"shape": a["shape"], "replace": replace}}
         return {"reproduced": False, "what": "extend_record follows the precedence rules on concrete typed values"}
     if "O2-timestamps" in gid:
         fields = [TS_POOL[int(c)] for c in a["shape"]]
